@@ -11,6 +11,10 @@ from .values import *
 from .program import Program, glob_match
 
 
+import os
+DEBUG_SMT = bool(os.environ.get("MIRSYM_DEBUG_SMT"))
+
+
 class Unsupported(Exception):
     pass
 
@@ -138,8 +142,8 @@ class Interp:
         self.types = prog.types
         self.policy = policy
         self.max_steps = max_steps
-        self.solver = z3.Solver()
-        self.solver.set("timeout", timeout_ms)
+        self.timeout_ms = timeout_ms
+        self._solver = None
         self.stats = {"solver_queries": 0, "solver_time": 0.0, "forks": 0, "steps": 0, "unknown": 0}
         self._static_cells = {}
         self._opty = {}
@@ -166,7 +170,10 @@ class Interp:
         """sat / unsat / unknown of conjunction"""
         t0 = time.time()
         self.stats["solver_queries"] += 1
-        s = self.solver
+        s = self._solver
+        if s is None or self.stats["solver_queries"] % 2000 == 0:
+            s = self._solver = z3.Solver()
+            s.set("timeout", self.timeout_ms)
         s.push()
         try:
             for c in pc:
@@ -181,11 +188,90 @@ class Interp:
             self.stats["unknown"] += 1
         return r
 
+    # ---- cheap decision of `X == "const"` style conditions on otherwise unconstrained string atoms
+    def _simple_str_cond(self, c):
+        """(var name, const, positive?) if c is X == "k" / Not(X == "k") with X an uninterpreted string constant"""
+        pos = True
+        if z3.is_not(c):
+            c = c.arg(0)
+            pos = False
+        if z3.is_eq(c):
+            a, b = c.arg(0), c.arg(1)
+            if z3.is_string_value(b) and z3.is_const(a) and a.decl().kind() == z3.Z3_OP_UNINTERPRETED and z3.is_string(a):
+                return a.decl().name(), b.as_string(), pos
+            if z3.is_string_value(a) and z3.is_const(b) and b.decl().kind() == z3.Z3_OP_UNINTERPRETED and z3.is_string(b):
+                return b.decl().name(), a.as_string(), pos
+        return None
+
+    def _note_constraint(self, st, c):
+        """maintain per-state facts about string atoms (called for every constraint added to the pc)"""
+        sc = self._simple_str_cond(c) if is_sym(c) else None
+        facts = st.extra.get("sfacts")
+        facts = dict(facts) if facts else {}
+        if sc is not None:
+            name, k, pos = sc
+            cur = facts.get(name)
+            if cur != "complex":
+                if pos:
+                    facts[name] = ("eq", k)
+                else:
+                    ne = cur[1] if cur and cur[0] == "ne" else frozenset()
+                    if not (cur and cur[0] == "eq"):
+                        facts[name] = ("ne", ne | {k})
+        else:
+            for v in self._string_vars(c):
+                facts[v] = "complex"
+        st.extra["sfacts"] = facts
+
+    def _string_vars(self, e, out=None, seen=None):
+        if out is None:
+            out, seen = set(), set()
+        if not is_sym(e):
+            return out
+        i = e.get_id()
+        if i in seen:
+            return out
+        seen.add(i)
+        if z3.is_const(e):
+            if e.decl().kind() == z3.Z3_OP_UNINTERPRETED and z3.is_string(e):
+                out.add(e.decl().name())
+            return out
+        for ch in e.children():
+            self._string_vars(ch, out, seen)
+        return out
+
+    def add_pc(self, st, c):
+        if c is True or (is_sym(c) and z3.is_true(c)):
+            return
+        st.pc.append(c)
+        self._note_constraint(st, c)
+
+    def quick_feasible(self, st, cond):
+        sc = self._simple_str_cond(cond)
+        if sc is None:
+            return None
+        name, k, pos = sc
+        cur = (st.extra.get("sfacts") or {}).get(name)
+        if cur == "complex":
+            return None
+        if cur is None:
+            return True
+        if cur[0] == "eq":
+            return (cur[1] == k) == pos
+        # known disequalities only
+        if pos:
+            return k not in cur[1]
+        return True
+
     def feasible(self, st, cond):
         if cond is True:
             return True
         if cond is False:
             return False
+        q = self.quick_feasible(st, cond)
+        if q is not None:
+            self.stats["quick_decided"] = self.stats.get("quick_decided", 0) + 1
+            return q
         r = self.check(st.pc, cond)
         if r == z3.unknown:
             st.inconclusive = True
@@ -377,7 +463,8 @@ class Interp:
                     raise Unsupported("deref of %r" % (v,))
                 ptr = v
             elif "Field" in e:
-                ptr = Ptr(ptr.cell, ptr.path + (e["Field"][0],), None)
+                # metadata of a fat pointer carries over to the (possibly unsized) tail field
+                ptr = Ptr(ptr.cell, ptr.path + (e["Field"][0],), ptr.meta if isinstance(ptr.meta, tuple) else None)
             elif "Downcast" in e:
                 ptr = Ptr(ptr.cell, ptr.path + (("V", e["Downcast"]),), None)
             elif "Index" in e:
@@ -642,6 +729,16 @@ class Interp:
             b = self.resolve_discr(st, b)
         if isinstance(a, Poison) or isinstance(b, Poison) or a is UNINIT or b is UNINIT:
             return Poison("binop")
+        if isinstance(a, PtrAddr) or isinstance(b, PtrAddr):
+            pa, other = (a, b) if isinstance(a, PtrAddr) else (b, a)
+            if op == "BitAnd" and isinstance(other, int) and 0 <= other < 4096:
+                return 0  # suitably aligned
+            if op in ("Eq", "Ne") and isinstance(other, int) and other == 0:
+                return op == "Ne"  # non-null
+            if op in ("Eq", "Ne") and isinstance(other, PtrAddr):
+                eq = self.ptr_eq(pa.ptr, other.ptr)
+                return eq if op == "Eq" else not eq
+            raise Unsupported("arithmetic on pointer address (%s)" % op)
         k = ta.kind
         if op in ("Eq", "Ne") and (isinstance(a, (Ptr, IntPtr, FnPtr)) or isinstance(b, (Ptr, IntPtr, FnPtr))):
             eq = self.ptr_eq(a, b)
@@ -1021,12 +1118,12 @@ class Interp:
         if ktag in ("PointerExposeAddress", "PointerExposeProvenance"):
             if isinstance(v, IntPtr):
                 return v.addr
-            if isinstance(v, Ptr):
-                return ("addr", v)  # abstract aligned non-null address
+            if isinstance(v, (Ptr, FnPtr)):
+                return PtrAddr(v)  # abstract aligned non-null address
             raise Unsupported("expose %r" % (v,))
         if ktag in ("PointerWithExposedProvenance", "PointerFromExposedAddress"):
-            if isinstance(v, tuple) and v and v[0] == "addr":
-                return v[1]
+            if isinstance(v, PtrAddr):
+                return v.ptr
             if isinstance(v, int):
                 return IntPtr(v)
             raise Unsupported("int to ptr %r" % (v,))
@@ -1041,6 +1138,15 @@ class Interp:
             return self.map_ptr(v, lambda p: p.with_meta(sp.len))
         if dp.kind == "dyn":
             return self.map_ptr(v, lambda p: p.with_meta(("vt", sp.id, dp.id)))
+        # struct with an unsized tail (e.g. NoDrop<dyn Trait>): coerce the last field
+        a, b = sp, dp
+        while a.kind == "adt" and b.kind == "adt" and a.is_struct and b.is_struct and a.variant_fields(0) and b.variant_fields(0):
+            a = self.types[a.variant_fields(0)[-1]["ty"]]
+            b = self.types[b.variant_fields(0)[-1]["ty"]]
+            if b.kind == "dyn":
+                return self.map_ptr(v, lambda p: p.with_meta(("vt", a.id, b.id)))
+            if a.kind == "array" and b.kind == "slice":
+                return self.map_ptr(v, lambda p: p.with_meta(a.len))
         raise Unsupported("unsize %s -> %s" % (sty, dty))
 
     def map_ptr(self, v, f):
@@ -1060,6 +1166,15 @@ class Interp:
             return self.wrap_like(dty, v)
         if sty.kind == "adt" and dty.kind in ("ref", "rawptr"):
             return self.unwrap_ptr(v)
+        if sty.kind in ("ref", "rawptr", "fnptr") and dty.kind == "int":
+            if isinstance(v, IntPtr):
+                return v.addr
+            return PtrAddr(v)
+        if sty.kind == "int" and dty.kind in ("ref", "rawptr"):
+            if isinstance(v, PtrAddr):
+                return v.ptr
+            if isinstance(v, int):
+                return IntPtr(v)
         if sty.kind == "int" and dty.kind == "char":
             return v
         if sty.kind == "char" and dty.kind == "int":
@@ -1129,7 +1244,7 @@ class Interp:
             if itag == "Assume":
                 c = self.eval_operand(st, fr, ival)
                 if is_sym(c):
-                    st.pc.append(c)
+                    self.add_pc(st, c)
                 return
             if itag == "CopyNonOverlapping":
                 src = self.eval_operand(st, fr, ival["src"])
@@ -1171,7 +1286,7 @@ class Interp:
             else:
                 st.heap[base + sa] = Agg(None, rest)
         else:
-            if call_abi == "RustCall" and len(args) != n and args:
+            if call_abi == "RustCall" and args:
                 last = args[-1]
                 if isinstance(last, Lazy):
                     last = self.lazy.expand(self, st, last, None, want=0)
@@ -1226,7 +1341,36 @@ class Interp:
         if inst.blocks is not None:
             self.push_frame(st, inst, args, dest, target, unwind, call_abi=call_abi)
             return None
+        fnshim = self.fn_trait_shim(st, inst, args)
+        if fnshim is not None:
+            callee, cargs = fnshim
+            return self.invoke(st, callee, cargs, dest, target, unwind, None)
         raise Unsupported("no model or body for %s" % inst.name)
+
+    def fn_trait_shim(self, st, inst, args):
+        """body-less `<F as Fn*>::call*` where F is a fn item or fn pointer: call F with the spread tuple"""
+        n = inst.name
+        if not (n.startswith("<") and ("as std::ops::Fn" in n) and ("::call" in n)):
+            return None
+        self_ty = self.types.get(inst.targ(0))
+        if self_ty is None:
+            return None
+        f = args[0]
+        if isinstance(f, Ptr):
+            f = self.read(st, f)
+        if self_ty.kind == "fndef":
+            fd = self.prog.fndefs.get(self_ty.id)
+            if fd is None or fd["inst"] is None:
+                return None
+            callee = self.prog.insts[fd["inst"]]
+        elif isinstance(f, FnPtr):
+            callee = self.prog.insts[f.inst]
+        else:
+            return None
+        tup = args[1] if len(args) > 1 else UNIT
+        if isinstance(tup, Lazy):
+            tup = self.lazy.expand(self, st, tup, None, want=0)
+        return callee, list(tup.f) if isinstance(tup, Agg) else []
 
     def finish_call(self, st, v, dest, target):
         fr = st.frames[-1]
@@ -1390,7 +1534,7 @@ class Interp:
         if len(alts) == 1:
             c, bb = alts[0]
             if is_sym(c) and not z3.is_true(c):
-                st.pc.append(c)
+                self.add_pc(st, c)
             fr.bb = bb
             fr.si = 0
             return None
@@ -1399,7 +1543,7 @@ class Interp:
         for c, bb in alts:
             s2 = st.fork()
             if is_sym(c) and not z3.is_true(c):
-                s2.pc.append(c)
+                self.add_pc(s2, c)
             f2 = s2.frames[-1]
             f2.bb = bb
             f2.si = 0
@@ -1550,14 +1694,14 @@ class Interp:
             return None
         if f_ok:
             s2 = st.fork()
-            s2.pc.append(ok)
+            self.add_pc(s2, ok)
             f2 = s2.frames[-1]
             f2.bb = val["target"]
             f2.si = 0
             out.append(s2)
         if f_bad:
             s3 = st.fork() if f_ok else st
-            s3.pc.append(bad)
+            self.add_pc(s3, bad)
             r = self.start_panic(s3, PanicExc(self.assert_msg(val["msg"])), val["unwind"])
             if r is None:
                 out.append(s3)
@@ -1601,7 +1745,7 @@ class Interp:
                 if nf.constraint is not None:
                     c = nf.constraint(ch)
                     if c is not None:
-                        s2.pc.append(c)
+                        self.add_pc(s2, c)
                 out.append(s2)
             self.stats["forks"] += max(0, len(out) - 1)
             st.branches += 1
